@@ -9,6 +9,9 @@ import impl
 
 import forsys as fs
 import forsys.virtual_edges as ve
+import forsys.vertex as fvertex
+import forsys.edge as fedge
+import forsys.cell as fcell
 
 
 class StaticCase:
@@ -117,8 +120,89 @@ def build_static_axis_ridge(case):
     return sc
 
 
+def build_lens(case):
+    """a tissue with a cell that has exactly two neighbours (a lens): two big cells A (above) and B (below) separated by the
+    straight interfaces [3,0] and [1,4] and, between the junctions 0 and 1, by the lens cell whose two sides are exact circular
+    arcs (or a straight two-point chord) with different numbers of points — two interfaces between the same pair of junctions.
+    Vertex ids are the junction ids; closed-form tangents from the circle through first / middle / last point."""
+    rng = np.random.default_rng(case["seed"])
+    k1, k2 = int(case["k_upper"]), int(case["k_lower"])
+    assert k1 != k2 and k1 >= 1
+    h1, h2 = float(case.get("h_upper", 1.5)), float(case.get("h_lower", 1.0))
+    sim = gen.Similarity(angle=case.get("angle", 0.0), scale=case.get("scale", 1.0), shift=complex(*case.get("shift", (0.0, 0.0))))
+    def arc(h, k, up):
+        # k interior points of the circle through (0,0), (4,0) with apex (2, +-h), from (0,0) to (4,0)
+        yc = (h * h - 4.0) / (2.0 * h)
+        R = h - yc
+        a0, a1 = math.atan2(0 - yc, 0 - 2.0), math.atan2(0 - yc, 4.0 - 2.0)
+        out = []
+        for i in range(1, k + 1):
+            t = a0 + (a1 - a0) * i / (k + 1)
+            out.append(complex(2.0 + R * math.cos(t), (yc + R * math.sin(t)) * (1 if up else -1)))
+        return out
+    pts = {0: 0j, 1: 4 + 0j, 3: -3 + 0j, 4: 7 + 0j, 5: 7 + 4j, 6: -3 + 4j, 7: -3 - 4j, 8: 7 - 4j}
+    upper = arc(h1, k1, True)
+    lower = arc(h2, k2, False) if k2 > 0 else []
+    nid = 9
+    up_ids, lo_ids = [], []
+    for z in upper:
+        pts[nid] = z; up_ids.append(nid); nid += 1
+    for z in lower:
+        pts[nid] = z; lo_ids.append(nid); nid += 1
+    cyc = {0: [3, 0] + up_ids + [1, 4, 5, 6], 1: [3, 7, 8, 4, 1] + lo_ids[::-1] + [0], 2: [0] + lo_ids + [1] + up_ids[::-1]}
+    order = list(cyc)
+    if case.get("shuffle_cells"):
+        rng.shuffle(order)
+    bm = gen.BuiltMesh()
+    for k, z in pts.items():
+        w = sim(z)
+        bm.vertices[k] = fvertex.Vertex(k, float(np.real(w)), float(np.imag(w)))
+        bm.vid_phys[k] = ("J", k)
+        bm.vid_of_junction[k] = k
+    seen = {}
+    for cid in order:
+        c = cyc[cid]
+        for a, b in zip(c, c[1:] + c[:1]):
+            if frozenset((a, b)) not in seen:
+                seen[frozenset((a, b))] = len(bm.edges)
+                bm.edges[len(bm.edges)] = fedge.SmallEdge(len(bm.edges), bm.vertices[a], bm.vertices[b])
+    for cid in order:
+        c = cyc[cid]
+        if case.get("p_rev", 0.0) and rng.random() < case["p_rev"]:
+            c = c[::-1]
+        sft = int(rng.integers(len(c))) if case.get("shifts") else 0
+        c = c[sft:] + c[:sft]
+        bm.cells[cid] = fcell.Cell(cid, [bm.vertices[v] for v in c], center_method="mean")
+        bm.cell_phys[cid] = cid
+    sc = StaticCase()
+    sc.case, sc.topo, sc.sub, sc.mob, sc.sim, sc.bm, sc.rng = case, None, None, "exact arcs", sim, bm, rng
+    # closed-form tangents keyed by (junction, other junction, number of points)
+    dirs = {}
+    def tangent(ids, at_first):
+        P = [complex(bm.vertices[i].x, bm.vertices[i].y) for i in (ids if at_first else ids[::-1])]
+        if len(P) == 2:
+            w = P[1] - P[0]
+        else:
+            a, b, c = P[0], P[len(P) // 2], P[-1]
+            d = 2 * (a.real * (b.imag - c.imag) + b.real * (c.imag - a.imag) + c.real * (a.imag - b.imag))
+            ux = ((abs(a) ** 2) * (b.imag - c.imag) + (abs(b) ** 2) * (c.imag - a.imag) + (abs(c) ** 2) * (a.imag - b.imag)) / d
+            uy = ((abs(a) ** 2) * (c.real - b.real) + (abs(b) ** 2) * (a.real - c.real) + (abs(c) ** 2) * (b.real - a.real)) / d
+            r = P[0] - complex(ux, uy)
+            w = r * 1j
+            if (w * (P[1] - P[0]).conjugate()).real < 0:
+                w = -w
+        return w / abs(w)
+    for ids in ([0] + up_ids + [1], [0] + lo_ids + [1], [3, 0], [1, 4]):
+        dirs[(ids[0], ids[-1], len(ids))] = tangent(ids, True)
+        dirs[(ids[-1], ids[0], len(ids))] = tangent(ids, False)
+    sc.explicit_dirs = dirs
+    return sc
+
+
 def true_direction(sc, ja, jb, npoints):
     """closed-form unit tangent at junction ja of the interface towards junction jb (complex number)"""
+    if getattr(sc, "explicit_dirs", None) is not None:
+        return sc.explicit_dirs[(ja, jb, npoints)]
     topo = sc.topo
     if npoints == 2:
         # two points determine a line: the direction is the chord between the (mapped) junctions
